@@ -131,6 +131,23 @@ template <class F> static void op_rt(Json &j) {
     }
     std::string text = os.str();
     j.s("text", hexs(text));
+    // the same matrix as a VIEW into a larger parent (outer stride != rows): top rows, inner block, and a map with padded columns must print alike
+    if constexpr (!std::is_same_v<F, float>) {
+        bool same = true;
+        if (rows > 0 && cols > 0) {
+            Eigen::MatrixX<F> P = Eigen::MatrixX<F>::Constant(rows + 3, cols + 2, F(999));
+            P.block(2, 1, rows, cols) = M;
+            std::ostringstream o1;
+            alpaqa::print_csv(o1, P.block(2, 1, rows, cols), std::string_view{sep});
+            same = same && o1.str() == text;
+            Eigen::MatrixX<F> T = Eigen::MatrixX<F>::Constant(rows + 2, cols, F(999));
+            T.topRows(rows) = M;
+            std::ostringstream o2;
+            alpaqa::print_csv(o2, T.topRows(rows), std::string_view{sep});
+            same = same && o2.str() == text;
+        }
+        j.b("view_same", same);
+    }
     long nrows = (cols == 1 && rows != 1) ? 1 : rows, ncols = (cols == 1 && rows != 1) ? rows : cols;
     if (sep.size() == 1) {
         std::string out = "[", outv = "[", errs;
